@@ -123,6 +123,14 @@ impl<K: ExpiredKey<E>, E: Expiration, V: Copy> KeyExpTree<K, E, V> {
     fn is_part_of_the_tree(&self, index: u32) -> bool {
         let mut prev = index;
         let mut cursor = self.node(index).parent;
+        if cursor != 0 && cursor != EMPTY_REF {
+            // a released slot keeps its stale parent link: the slot is part of the tree only if
+            // that parent still points back at it
+            let parent = self.node(cursor);
+            if parent.left != index && parent.right != index {
+                return false;
+            }
+        }
         while cursor != 0 && cursor != EMPTY_REF && cursor != index {
             prev = cursor;
             let parent_index = self.node(cursor).parent;
